@@ -67,7 +67,7 @@ Proof. exact optimize_lists_is_model. Qed.
 Print Assumptions C05_src_optimize_lists.
 
 Theorem C05_src_new_optimize_flags :
-  map (fun x => (fst (fst x), snd x)) new_lists = map (fun n => (n, named optimize_lists n)) blocker_fields.
+  map (fun x => (fst (fst x), snd x)) new_lists = map (fun n => (n, named optimize_lists n)) blocker_fields_sorted.
 Proof. exact new_lists_flags. Qed.
 Print Assumptions C05_src_new_optimize_flags.
 
